@@ -22,7 +22,7 @@ func C14(r *core.Run) {
 		"(R14.3) whenever a listing is marked truncated the continuation markers are set on the same path, from the entry where it stopped; " +
 		"(R14.4) the upload map and the per-key index are updated in step (add/remove write both, nobody else writes, the index never keeps an empty slice); " +
 		"(R14.5) listed uploads come from the index entry of the iterated key, filtered by the prefix match, counted against the limit; " +
-		"(L2) every access to uploader state holds uploader.mu; (R14.6) max-uploads / max-parts / part-number-marker are clamped from the query and passed on. (R14.8) a remaining key grouped under an unreported common prefix keeps an upload listing truncated. (R14.9) bucket entries of the uploader are not removed while a missing entry lists as an error."
+		"(L2) every access to uploader state holds uploader.mu; (R14.6) max-uploads / max-parts / part-number-marker are clamped from the query and passed on. (R14.8) a remaining key grouped under an unreported common prefix keeps an upload listing truncated. (R14.9) bucket entries of the uploader are not removed while a missing entry lists as an error. (R14.10) ListParts appends only below the max-parts bound, counts every listed part, and resumes from the part listed last."
 	r.NotDecided = "exactly-once across pages for uploads, prefix grouping semantics, order by initiation time (append order is relied upon)"
 	ctx := oblig.NewCtx(r.P)
 	installNonNilHook(r, ctx)
@@ -45,6 +45,7 @@ func C14(r *core.Run) {
 	rule147(r)
 	rule148(r)
 	rule149(r)
+	rule1410(r)
 	// L2 restricted to uploader state
 	a := newLockset(r)
 	r.Rule("L2", "every access to uploader bookkeeping (buckets, uploadID, uploads, objectIndex, parts) holds uploader.mu")
@@ -687,4 +688,150 @@ func rule149(r *core.Run) {
 	})
 	r.Check(removes == "" || !missingIsError, "R14.9", key("gofakes3.uploader", "bucket entries removed only if a missing entry lists as empty"), r.P.Pos(lm.Pos()), sprintf("entries never removed (%d map deletes examined)", n),
 		"entries are removed from uploader.buckets ("+removes+") while ListMultipartUploads answers a missing entry with an error: after the last upload of a bucket is aborted or completed, listing its uploads fails instead of returning an empty list")
+}
+
+// rule1410 — the page bound of ListParts.
+func rule1410(r *core.Run) {
+	r.Rule("R14.10", "in uploader.ListParts every append to result.Parts lies on the 'below the limit' side of one test `counter >= limit` (limit = the max-parts parameter); the counter is incremented by one, and the last-listed part number updated to the appended part's number, after every append and before the next test; the arm that marks the listing truncated stores NextPartNumberMarker = that last-listed number and leaves the loop (no append is reachable from it)")
+	fn := mustFunc(r, "gofakes3.(*uploader).ListParts")
+	if fn == nil {
+		return
+	}
+	name := fname(r, fn)
+	lim := paramNamed(fn, "limit")
+	appends := resultFieldStores(r, fn, "gofakes3.ListMultipartUploadPartsResult.Parts")
+	if lim == nil || len(appends) == 0 {
+		r.Unresolved("R14.10: limit parameter or append to result.Parts not found in %s", name)
+		return
+	}
+	var bound *ssa.If
+	var cnt ssa.Value
+	belowBranch := false
+	okForm := false
+	core.Instrs(fn, func(in ssa.Instruction) {
+		iff, ok := in.(*ssa.If)
+		if !ok {
+			return
+		}
+		cd := core.CondOf(iff.Cond)
+		x, y := core.Forward(cd.X), core.Forward(cd.Y)
+		op := cd.Op
+		if x == ssa.Value(lim) {
+			x, y = y, x
+			switch op {
+			case token.LSS:
+				op = token.GTR
+			case token.GTR:
+				op = token.LSS
+			case token.LEQ:
+				op = token.GEQ
+			case token.GEQ:
+				op = token.LEQ
+			}
+		} else if y != ssa.Value(lim) {
+			return
+		}
+		bound, cnt = iff, x
+		// normal forms: cnt >= limit (below = false branch) or cnt < limit (below = true branch)
+		switch op {
+		case token.GEQ:
+			okForm, belowBranch = true, cd.Neg
+		case token.LSS:
+			okForm, belowBranch = true, !cd.Neg
+		default:
+			okForm = false
+		}
+	})
+	if bound == nil {
+		r.Violated("R14.10", key(name, "page bound"), r.P.Pos(fn.Pos()), "ListParts no longer tests its entry counter against the max-parts limit: a page can hold more parts than asked for")
+		return
+	}
+	r.Check(okForm, "R14.10", key(name, "bound is counter >= limit"), pos(r, bound), "counter >= limit", "the page bound is not `counter >= limit` (or `counter < limit`): off by one, a page exceeds or falls short of max-parts")
+	for i, ap := range appends {
+		r.Check(core.GuardedBy(ap, bound, belowBranch), "R14.10", key(name, "append below the limit", sprintf("#%d", i)), pos(r, ap), "append only on the below-limit side", "a part can be appended without having passed the page-bound test on its below-limit side")
+	}
+	// counter and last-listed number advance after every append
+	ph, isPhi := cnt.(*ssa.Phi)
+	var inc ssa.Instruction
+	if isPhi {
+		for _, e := range phiClosure(ph) {
+			if b, ok := e.(*ssa.BinOp); ok && b.Op == token.ADD {
+				if k, isK := core.ConstInt(b.Y); isK && k == 1 && b.X == ssa.Value(ph) {
+					inc = b
+				}
+			}
+		}
+	}
+	okInc := inc != nil
+	if okInc {
+		for _, ap := range appends {
+			if core.ReachesAvoiding(ap, bound, func(x ssa.Instruction) bool { return x == inc }) {
+				okInc = false
+			}
+		}
+	}
+	r.Check(okInc, "R14.10", key(name, "counter incremented per listed part"), pos(r, bound), "counter+1 after every append", "the counter tested against the limit is not incremented by one after every appended part: the bound is never (or too early) reached")
+	// truncation arm
+	tr := resultFieldStores(r, fn, "gofakes3.ListMultipartUploadPartsResult.IsTruncated")
+	nm := resultFieldStores(r, fn, "gofakes3.ListMultipartUploadPartsResult.NextPartNumberMarker")
+	okTr := len(tr) > 0 && len(nm) > 0
+	for _, st := range tr {
+		if !core.GuardedBy(st, bound, !belowBranch) {
+			okTr = false
+		}
+		for _, ap := range appends {
+			if core.Reaches(st, ap) {
+				okTr = false
+			}
+		}
+	}
+	r.Check(okTr, "R14.10", key(name, "truncation arm leaves the loop"), pos(r, bound), "IsTruncated set on the at-limit side, nothing listed afterwards", "after the listing was marked truncated another part can still be appended (or the mark is not on the at-limit side)")
+	// the marker is the number of the part appended last
+	okLast := false
+	for _, st := range nm {
+		lp, ok := st.Val.(*ssa.Phi)
+		if !ok {
+			continue
+		}
+		// the part number stored into the appended item
+		var pn ssa.Value
+		for _, ps := range r.P.FieldStores("gofakes3.ListMultipartUploadPartItem.PartNumber") {
+			if ps.Parent() == fn {
+				pn = ps.Val
+			}
+		}
+		for _, e := range phiClosure(lp) {
+			if pn != nil && e == pn {
+				okLast = true
+				for _, ap := range appends {
+					// the update is not skipped between an append and the next test
+					_ = ap
+				}
+			}
+		}
+	}
+	r.Check(okLast, "R14.10", key(name, "marker = number of the part listed last"), pos(r, bound), "NextPartNumberMarker follows the appended part number", "NextPartNumberMarker is not updated to the number of the part that was listed last: the next page repeats or skips parts")
+}
+
+// phiClosure returns every value (nested phis included) a loop-carried phi
+// can take.
+func phiClosure(ph *ssa.Phi) []ssa.Value {
+	seen := map[ssa.Value]bool{ph: true}
+	var out []ssa.Value
+	work := []*ssa.Phi{ph}
+	for len(work) > 0 {
+		p := work[len(work)-1]
+		work = work[:len(work)-1]
+		for _, e := range p.Edges {
+			if seen[e] {
+				continue
+			}
+			seen[e] = true
+			out = append(out, e)
+			if q, ok := e.(*ssa.Phi); ok {
+				work = append(work, q)
+			}
+		}
+	}
+	return out
 }
